@@ -118,7 +118,7 @@ def absA3 (a : A3) : A3 := a.map absA2
 def handleSolver (j : Json) : R Json := do
   let kn ← fRatList j "knots"; let d ← fNat j "degree"; let ncells ← fNat j "ncells"
   let nb := ncells + d
-  let w ← fRatList j "weights"; let mult ← fRat j "mult"
+  let w ← fRatList j "weights"; let mult ← fRatList j "mult"   -- `multFactor[c]`, one per cell (fix F17)
   let xs ← rat2 (← field j "evalpts")
   let nq := w.length
   let tA ← rat2 (← field j "A"); let tB ← rat2 (← field j "B"); let tC ← rat2 (← field j "C")
@@ -136,14 +136,17 @@ def handleSolver (j : Json) : R Json := do
   let P : ℕ → ℕ → ℕ → Rat := get3 Pa
   let dP : ℕ → ℕ → ℕ → Rat := get3 dPa
   let wa := w.toArray
-  let Q : Quad Rat := { ncells := ncells, nq := nq, w := get1 wa, mult := mult, x := X }
+  if mult.length != ncells then throw "mult: one value per cell expected"
+  let ma := mult.toArray
+  let Q : Quad Rat := { ncells := ncells, nq := nq, w := get1 wa, mult := get1 ma, x := X }
   let co : Coefs Rat := { A := get2 tA, B := get2 tB, C := get2 tC, D := get2 tD, E := get2 tE }
   let ms := assembleArrays d nb Q co P dP
   let asm := ms.toAssembled
   -- Σ|terms| of every entry: the same assembly on absolute values (A ↦ -|A| because the model negates A)
   let waa := wa.map (fun v => |v|)
   let xsa := absA2 xs
-  let Qa : Quad Rat := { ncells := ncells, nq := nq, w := get1 waa, mult := |mult|, x := get2 xsa }
+  let maa := ma.map (fun v => |v|)
+  let Qa : Quad Rat := { ncells := ncells, nq := nq, w := get1 waa, mult := get1 maa, x := get2 xsa }
   let nAa : A2 := tA.map (fun r => r.map (fun v => -|v|))
   let aB := absA2 tB; let aC := absA2 tC; let aD := absA2 tD; let aE := absA2 tE
   let coa : Coefs Rat := { A := get2 nAa, B := get2 aB, C := get2 aC, D := get2 aD, E := get2 aE }
